@@ -43,12 +43,28 @@ def ccase(p, res):
             f"{cbool(m['ident'])} {cbool(m['trivial'])} {rows}")
 
 
+def sort_window_programs():
+    """Deterministic: a window (every start / stop up to one past the rows) right above a sort in one direction, in both, and
+    above a sort with a projection in between, over a six-row leaf with exact bounds."""
+    k1, k2 = K(1), K(2)
+    rows6 = [{k1: (5 * i) % 6, k2: i % 2} for i in range(6)]
+    leaf6 = ("leaf", 1, ("it", 0), [k1, k2], rows6)
+    fixed = []
+    for terms in ([(("ref", k1), True)], [(("ref", k1), False)], [(("ref", k2), True), (("ref", k1), True)], [(("ref", k2), True), (("ref", k1), False)]):
+        for a in range(0, 5):
+            for b in (a, a + 1, a + 3, None):
+                fixed.append(("un", ("slice", a, b), ("un", ("sort", terms), leaf6)))
+        fixed.append(("un", ("slice", 2, 5), ("un", ("proj", [k1]), ("un", ("sort", terms), leaf6))))
+    return fixed
+
+
 def make_cases(rng, tier):
     n = 700 if tier == "quick" else 20000
     cases = []
-    for _ in range(n):
-        p, _ = ip.gen_prog(rng, rng.choice([0, 1, 2, 3, 4, 6, 8]), loose=0.5, special=0.25,
-                           weights=[2, 3, 2, 2, 4, 1])
+    fixed = sort_window_programs()
+    for it in range(n + len(fixed)):
+        p = fixed[it] if it < len(fixed) else ip.gen_prog(rng, rng.choice([0, 1, 2, 3, 4, 6, 8]), loose=0.5, special=0.25,
+                                                         weights=[2, 3, 2, 2, 4, 1])[0]
         res = run_impl(p)
         m = res["meta"]
         interesting = m is not None and (m["max"] is None or m["min"] != m["max"] or m["ident"] or m["trivial"])
